@@ -11,7 +11,7 @@ import (
 var RichTypes = []string{"string", "int8", "int16", "int32", "int64", "uint8", "uint16", "uint32", "uint64",
 	"decimal64", "boolean", "enum", "bits", "binary", "empty", "identityref", "union", "unione"}
 
-var RichListTypes = []string{"string", "int32", "enum", "uint64", "boolean", "decimal64", "identityref", "union", "unione"}
+var RichListTypes = []string{"string", "int32", "enum", "uint64", "boolean", "decimal64", "identityref", "union", "unione", "bits", "binary"}
 
 type richGen struct {
 	r   *kit.Rng
@@ -53,6 +53,9 @@ func (g *richGen) fill(p *Node, depth, maxDepth int, mod string) {
 			ll := &Node{Kind: LeafList, Name: g.name("ll"), Type: RichListTypes[g.r.Intn(len(RichListTypes))], Module: mod}
 			if ll.Type == "enum" {
 				ll.Enums = enumSets[g.r.Intn(len(enumSets))]
+			}
+			if ll.Type == "bits" {
+				ll.Bits = []string{"b0", "b1", "b2", "b3"}
 			}
 			p.Children = append(p.Children, ll)
 		case x < 9 && depth < maxDepth:
